@@ -395,6 +395,30 @@ def check(ctx):
     if n7 < 3:
         raise AnalysisError('C20.R7 examined only %d returning paths of composite encoders' % n7)
 
+    # ---- R8 (sa/texttaint.py): the finished text of a child is composed, never rewritten
+    ctx.rule('C20.R8', 'text returned by a child encoder reaches the output through composition only (format / join / +): no replace, re.sub, strip, split or slice is applied to it')
+    from .. import texttaint
+    n8 = 0
+    gm = model.mod(F)
+    for c8 in gm.classes.values():
+        for mn8 in ('encode',):
+            f8 = c8.methods.get(mn8)
+            if f8 is None:
+                continue
+            taint8, _t = texttaint.tainted_names(f8)
+            if not taint8:
+                continue
+            n8 += 1
+            bad8 = texttaint.rewrites_of_encoded_text(f8, gm, c8)
+            ctx.instance('C20.R8', '%s composes the text of its children (%s)' % (Model.qual(f8), ', '.join(sorted(taint8))[:60]), 'composition only' if not bad8 else 'VIOLATION', node=f8, file=F)
+            for node8, what8 in bad8[:1]:
+                ctx.violation('C20.R8', F, node8, Model.qual(f8),
+                              'the encoded text of the children goes through %s: finished text contains character-string values in which a line break, a comma or a space is data, so '
+                              'rewriting it by content changes those values (an embedded line feed gains indentation) and the emitted text no longer maps back to the value'
+                              % what8, stmt='encoded text rewritten')
+    if n8 < 3:
+        raise AnalysisError('C20.R8 found only %d container encoders' % n8)
+
 
 MUTANTS = [
     dict(name='presence decided by data.get() is None', file=F, quick=True,
